@@ -78,7 +78,12 @@ def _merge_stubs_members(obj: Module | Class, stubs: Module | Class) -> None:
                         stub_member.kind.value,
                         obj_member.kind.value,
                     )
-                elif obj_member.is_module:
+                    continue
+                # Merge into the target itself: the members of an alias are only a view
+                # of its target's members, stub-only members added to it would be lost.
+                if obj_member.is_alias:
+                    obj_member = obj_member.final_target  # type: ignore[union-attr]
+                if obj_member.is_module:
                     _merge_module_stubs(obj_member, stub_member)  # type: ignore[arg-type]
                 elif obj_member.is_class:
                     _merge_class_stubs(obj_member, stub_member)  # type: ignore[arg-type]
